@@ -4,11 +4,18 @@ package main
 // inductive argument over the parent chain; every step is an obligation here:
 //   a  only screen.resize/setCell/setStyle (and render, through screenLast only) touch screen.buf;
 //      rows/cols/buf are assigned only in resize with len(buf)=rows, len(buf[i])=cols; no alias of buf escapes
+//      (a function-local pointer/row alias that is only used in place counts as the access it stands for: c11alias.go)
 //   b  the stores in setCell/setStyle are reachable only under 0<=col<s.cols && 0<=row<s.rows (strict)
 //   c  Window.SetCell/SetStyle delegate only under 0<=col<win.Width && 0<=row<win.Height with
 //      arguments exactly col+win.Column,row+win.Row, to the screen iff Parent==nil else to the parent
+//      (symbolic evaluation c11sym.go; a hand-written walk up the parent chain is judged by induction: c11loop.go)
 //   d  screen.setCell/setStyle are called only from Window.SetCell/SetStyle
 //   e  the screen handles (Vaxis.screenNext/screenLast) do not escape their owners
+//   f  Characters builds every Character from a uniseg cluster
+//   g,h,k  the text helpers move the cursor by the character width / to column 0 of the next row exactly when the
+//      row is full / at every line break (c11text.go, field-sensitive symbolic evaluation c11fields.go)
+//   i  (c19x.go) a line break is recognised by containment of a newline;  j (loopprog.go) loop progress
+//   l  Window.New links the child to the window it is created from with exactly the requested offsets (c11text.go)
 
 import (
 	"fmt"
@@ -17,6 +24,7 @@ import (
 	"go/types"
 	"strings"
 
+	"golang.org/x/tools/go/cfg"
 	"golang.org/x/tools/go/packages"
 )
 
@@ -28,8 +36,10 @@ func runC11(c *Ctx) {
 		"C11.d screen.setCell/setStyle called only from Window.SetCell/SetStyle",
 		"C11.e screenNext/screenLast handles do not escape (every use is a method-call receiver or a buffer access in the owners)",
 		"C11.f Characters builds every Character from a cluster boundary computed by uniseg (or a constant) with that cluster's width",
-		"C11.g text helpers advance the column by the character width between two placed cells",
-		"C11.h Print/Wrap start a new row exactly when col >= cols",
+		"C11.g text helpers advance the column by the character width between two placed cells (or start a new row)",
+		"C11.h Print/Wrap start a new row exactly when the advanced column reaches the window width",
+		"C11.k Print/Wrap start a new row at column 0 at every line-break cluster, on every path",
+		"C11.l Window.New links the child to the window it is created from (or an identical copy) with exactly the requested offsets",
 	}
 	c.NotDec = []string{"that uniseg's cluster boundaries and widths are themselves right; exact wrap positions chosen by Wrap (values computed at run time)"}
 	c.expect("C11.a", 12)
@@ -92,7 +102,7 @@ func runC11(c *Ctx) {
 				return true
 			}
 			fn := enclosing(sel)
-			acc := classifyAccess(info, parents, sel)
+			acc := c11ClassifyAccessX(info, parents, sel, true)
 			key := fmt.Sprintf("%s/%s %s via %s", fn, acc.kind, fv.Name(), types.ExprString(sel.X))
 			encl := enclosingDecl(sel)
 			// a single-definition local that stands for the handle (last := vx.screenLast) is looked through
@@ -107,7 +117,17 @@ func runC11(c *Ctx) {
 					c.ok("C11.a", key, sel.Pos(), "allowed access")
 				}
 			case owners[fn]:
-				if acc.kind == "escape" && fn != "vaxis.(*screen).resize" {
+				unresolved := ""
+				if fn != "vaxis.(*screen).resize" {
+					for _, w := range acc.aliasWrites {
+						if ch := c11BufChain(info, encl, w, fields["buf"]); ch == nil || len(ch.idx) != 2 {
+							unresolved = types.ExprString(w)
+						}
+					}
+				}
+				if unresolved != "" {
+					c.bad("C11.a", key, sel.Pos(), "the buffer is written through a local alias (%s) that does not resolve to buf[row][col]: the guard of that store cannot be judged", unresolved)
+				} else if acc.kind == "escape" && fn != "vaxis.(*screen).resize" {
 					c.bad("C11.a", key, sel.Pos(), "the buffer (or a row of it) is aliased: %s", acc.why)
 				} else {
 					c.ok("C11.a", key, sel.Pos(), "owner function")
@@ -150,13 +170,18 @@ func runC11(c *Ctx) {
 			continue
 		}
 		g := c.P.Graph(fi)
-		stores := g.Find(func(n ast.Node) bool {
-			as, ok := n.(*ast.AssignStmt)
-			if !ok {
-				return false
+		storeLhs := func(n ast.Node) []ast.Expr {
+			switch t := n.(type) {
+			case *ast.AssignStmt:
+				return t.Lhs
+			case *ast.IncDecStmt:
+				return []ast.Expr{t.X}
 			}
-			for _, l := range as.Lhs {
-				if bufIndexChain(info, l, fields["buf"]) != nil {
+			return nil
+		}
+		stores := g.Find(func(n ast.Node) bool {
+			for _, l := range storeLhs(n) {
+				if c11BufChain(info, fi.Decl, l, fields["buf"]) != nil {
 					return true
 				}
 			}
@@ -166,9 +191,9 @@ func runC11(c *Ctx) {
 			c.undecided("C11.b", name+"/store", fi.Decl.Pos(), "no store into buf found in %s", name)
 		}
 		for _, h := range stores {
-			as := h.Node.(*ast.AssignStmt)
-			for _, l := range as.Lhs {
-				ch := bufIndexChain(info, l, fields["buf"])
+			as := h.Node
+			for _, l := range storeLhs(h.Node) {
+				ch := c11BufChain(info, fi.Decl, l, fields["buf"])
 				if ch == nil {
 					continue
 				}
@@ -220,6 +245,9 @@ func runC11(c *Ctx) {
 	c.expect("C11.f", 2)
 	c.expect("C11.g", 4)
 	c.expect("C11.h", 2)
+	c.expect("C11.k", 2)
+	c.expect("C11.l", 3)
+	c11WindowNew(c)
 
 	// ---- C11.d: sole callers; C11.e: handles do not escape
 	vxObj, _ := pk.Types.Scope().Lookup("Vaxis").(*types.TypeName)
@@ -309,10 +337,22 @@ func runC11(c *Ctx) {
 type access struct {
 	kind string // read | write | escape
 	why  string
+	// left-hand sides of stores made through a function-local alias of the accessed value (c11alias.go)
+	aliasWrites []ast.Expr
+}
+
+func c11AccessOfAlias(r c11AliasResult) access {
+	return access{kind: r.kind, why: r.why, aliasWrites: r.writes}
 }
 
 // classifyAccess classifies a use of s.buf (sel) by its syntactic context.
 func classifyAccess(info *types.Info, parents map[ast.Node]ast.Node, sel *ast.SelectorExpr) access {
+	return c11ClassifyAccessX(info, parents, sel, false)
+}
+
+// c11ClassifyAccessX: with aliasAware, a slice of / pointer into the value that is bound to a function-local variable
+// which is only used in place is classified by the uses of that variable (c11alias.go) instead of as an escape.
+func c11ClassifyAccessX(info *types.Info, parents map[ast.Node]ast.Node, sel *ast.SelectorExpr, aliasAware bool) access {
 	// climb the maximal index/selector chain
 	var top ast.Expr = sel
 	for {
@@ -346,6 +386,14 @@ func classifyAccess(info *types.Info, parents map[ast.Node]ast.Node, sel *ast.Se
 		return access{kind: "write"}
 	case *ast.UnaryExpr:
 		if t.Op == token.AND {
+			// a pointer to an element bound to a local that is only used in place is not an escape
+			if b := c11BoundLocal(info, parents, t); b != nil && aliasAware {
+				if r := c11AliasUses(info, parents, b, 0); r.kind != "escape" {
+					return c11AccessOfAlias(r)
+				} else {
+					return access{kind: "escape", why: "address taken; " + r.why}
+				}
+			}
 			return access{kind: "escape", why: "address taken"}
 		}
 	case *ast.CallExpr:
@@ -355,8 +403,18 @@ func classifyAccess(info *types.Info, parents map[ast.Node]ast.Node, sel *ast.Se
 	case *ast.RangeStmt:
 		if t.X == top {
 			// ranging over rows yields row slices only if a value variable is bound
-			if t.Value != nil {
-				if _, isSlice := info.TypeOf(t.Value).Underlying().(*types.Slice); isSlice {
+			if vt := info.TypeOf(t.Value); t.Value != nil && vt != nil {
+				if _, isSlice := vt.Underlying().(*types.Slice); isSlice {
+					if vid, ok := t.Value.(*ast.Ident); ok && aliasAware {
+						if vid.Name == "_" {
+							return access{kind: "read"}
+						}
+						if r := c11AliasUses(info, parents, vid, 0); r.kind != "escape" {
+							return c11AccessOfAlias(r)
+						} else {
+							return access{kind: "escape", why: "range binds a row slice to a variable; " + r.why}
+						}
+					}
 					return access{kind: "escape", why: "range binds a row slice to a variable"}
 				}
 			}
@@ -367,6 +425,13 @@ func classifyAccess(info *types.Info, parents map[ast.Node]ast.Node, sel *ast.Se
 	}
 	if tt := info.TypeOf(top); tt != nil {
 		if _, isSlice := tt.Underlying().(*types.Slice); isSlice {
+			if b := c11BoundLocal(info, parents, top); b != nil && aliasAware {
+				if r := c11AliasUses(info, parents, b, 0); r.kind != "escape" {
+					return c11AccessOfAlias(r)
+				} else {
+					return access{kind: "escape", why: "a slice value of the buffer flows into " + fmt.Sprintf("%T", p) + "; " + r.why}
+				}
+			}
 			return access{kind: "escape", why: "a slice value of the buffer flows into " + fmt.Sprintf("%T", p)}
 		}
 	}
@@ -554,12 +619,13 @@ func c11Window(c *Ctx, fi *FuncInfo, info *types.Info, self, screenMethod string
 		rn := repoName(fn)
 		return rn == "vaxis.screen."+screenMethod || rn == "vaxis.Window."+self
 	})
-	if len(calls) < 2 {
-		c.undecided("C11.c", name+"/delegation", fd.Pos(), "expected a delegating call to the screen and one to the parent window, found %d", len(calls))
-	}
 
 	// Symbolic evaluation of every path (c11sym.go): the obligations are about the ENTRY values of col, row and of
 	// the receiver's fields, whatever names and intermediate assignments the code uses on the way to the hand-off.
+	// A loop that walks up the parent chain (the recursion unrolled by hand) is judged by induction (c11loop.go):
+	// at the loop head the triple (w, col, row) stands for a pending w.SetCell(col, row); one iteration must
+	// either drop the cell, hand it to the screen, or come back to the head with (w.Parent, col+w.Column, row+w.Row)
+	// — the same obligations as for the recursive call, with w in the place of the receiver.
 	ex := c11NewExec(c.P, info, fi.Pkg.Types)
 	fr := &c11Frame{g: g, fd: fd, assigned: c11Assigned(info, fd.Body), addr: c11AddrTaken(info, fd.Body)}
 	recvRoot := fmt.Sprintf("%p", recvObj)
@@ -569,12 +635,14 @@ func c11Window(c *Ctx, fi *FuncInfo, info *types.Info, self, screenMethod string
 		ex.disp[s] = o.Name()
 		return c11Sym(s)
 	}
+	col0, row0 := sym(colP), sym(rowP)
+	// the reference of the obligations: the window and the coordinates of the pending SetCell
+	refRoot, refCol, refRow := recvRoot, col0, row0
 	fld := func(n string) c11Lin {
-		s := recvRoot + "." + n
-		ex.disp[s] = recvObj.Name() + "." + n
+		s := refRoot + "." + n
+		ex.disp[s] = ex.disp[refRoot] + "." + n
 		return c11Sym(s)
 	}
-	col0, row0 := sym(colP), sym(rowP)
 	one := c11Const(1)
 	type verdict struct {
 		reached int
@@ -583,61 +651,67 @@ func c11Window(c *Ctx, fi *FuncInfo, info *types.Info, self, screenMethod string
 		okWhy   map[string]string
 		pos     map[string]token.Pos
 	}
+	newVerdict := func() *verdict {
+		return &verdict{fail: map[string]string{}, okWhy: map[string]string{}, pos: map[string]token.Pos{}}
+	}
+	note := func(v *verdict, key string, pos token.Pos, ok bool, okWhy, badWhy string) {
+		if _, seen := v.pos[key]; !seen {
+			v.pos[key] = pos
+			v.order = append(v.order, key)
+			v.okWhy[key] = okWhy
+		}
+		if !ok {
+			if _, had := v.fail[key]; !had {
+				v.fail[key] = badWhy
+			}
+		}
+	}
+	guardNotes := func(v *verdict, st *c11State, tag string, pos token.Pos) {
+		factsStr := ex.factsString(st.facts)
+		needs := []struct {
+			what   string
+			target c11Lin // target <= 0
+		}{
+			{"col >= 0", refCol.scale(-1)},
+			{"col < Width", refCol.add(fld("Width"), -1).add(one, 1)},
+			{"row >= 0", refRow.scale(-1)},
+			{"row < Height", refRow.add(fld("Height"), -1).add(one, 1)},
+		}
+		for _, nd := range needs {
+			key := fmt.Sprintf("%s/->%s guarded by %s", name, tag, nd.what)
+			note(v, key, pos, c11Implies(st.facts, nd.target), "holds on every path; facts on the first one: "+factsStr,
+				fmt.Sprintf("the delegating call is reachable without %s (facts in force: %s): a cell outside the window is accepted", nd.what, factsStr))
+		}
+	}
 	byLoc := map[Loc][]*ast.CallExpr{}
 	verdicts := map[*ast.CallExpr]*verdict{}
 	for _, h := range calls {
 		call := h.Node.(*ast.CallExpr)
 		byLoc[h.Loc] = append(byLoc[h.Loc], call)
-		verdicts[call] = &verdict{fail: map[string]string{}, okWhy: map[string]string{}, pos: map[string]token.Pos{}}
+		verdicts[call] = newVerdict()
 	}
 	fr.onNode = func(st *c11State, l Loc, _ ast.Node) {
 		for _, call := range byLoc[l] {
 			v := verdicts[call]
 			v.reached++
-			note := func(key string, pos token.Pos, ok bool, okWhy, badWhy string) {
-				if _, seen := v.pos[key]; !seen {
-					v.pos[key] = pos
-					v.order = append(v.order, key)
-					v.okWhy[key] = okWhy
-				}
-				if !ok {
-					if _, had := v.fail[key]; !had {
-						v.fail[key] = badWhy
-					}
-				}
-			}
 			fn := calleeOf(info, call)
 			toScreen := repoName(fn) == "vaxis.screen."+screenMethod
 			tag := "parent"
 			if toScreen {
 				tag = "screen"
 			}
-			factsStr := ex.factsString(st.facts)
-			needs := []struct {
-				what   string
-				target c11Lin // target <= 0
-			}{
-				{"col >= 0", col0.scale(-1)},
-				{"col < Width", col0.add(fld("Width"), -1).add(one, 1)},
-				{"row >= 0", row0.scale(-1)},
-				{"row < Height", row0.add(fld("Height"), -1).add(one, 1)},
-			}
-			for _, nd := range needs {
-				key := fmt.Sprintf("%s/->%s guarded by %s", name, tag, nd.what)
-				note(key, call.Pos(), c11Implies(st.facts, nd.target), "holds on every path; facts on the first one: "+factsStr,
-					fmt.Sprintf("the delegating call is reachable without %s (facts in force: %s): a cell outside the window is accepted", nd.what, factsStr))
-			}
+			guardNotes(v, st, tag, call.Pos())
 			// arguments: callee's (col,row) parameters receive col+Column,row+Row (entry values)
 			sig := fn.Type().(*types.Signature)
 			if sig.Params().Len() < 2 || len(call.Args) < 2 {
-				note(name+"/->"+tag+" args", call.Pos(), false, "", "unexpected callee signature")
+				note(v, name+"/->"+tag+" args", call.Pos(), false, "", "unexpected callee signature")
 				continue
 			}
 			for i := 0; i < 2; i++ {
 				pn := sig.Params().At(i).Name()
-				wantP, want0, wantF := colP, col0, "Column"
+				wantP, want0, wantF := colP, refCol, "Column"
 				if pn == "row" || (pn != "col" && i == 1) {
-					wantP, want0, wantF = rowP, row0, "Row"
+					wantP, want0, wantF = rowP, refRow, "Row"
 				}
 				got := ex.evalInt(st, call.Args[i])
 				key := fmt.Sprintf("%s/->%s arg %s = %s + %s.%s", name, tag, pn, wantP.Name(), recvObj.Name(), wantF)
@@ -645,7 +719,7 @@ func c11Window(c *Ctx, fi *FuncInfo, info *types.Info, self, screenMethod string
 				if val := ex.linString(got); val != shown {
 					shown += " (= " + val + ")"
 				}
-				note(key, call.Args[i].Pos(), got.equal(want0.add(fld(wantF), 1)), "offset added exactly once",
+				note(v, key, call.Args[i].Pos(), got.equal(want0.add(fld(wantF), 1)), "offset added exactly once",
 					fmt.Sprintf("argument is %s, the clipping argument needs exactly %s + %s.%s: an accepted cell does not land at origin plus offset", shown, wantP.Name(), recvObj.Name(), wantF))
 			}
 			// receiver of the delegating call and the Parent test
@@ -654,23 +728,175 @@ func c11Window(c *Ctx, fi *FuncInfo, info *types.Info, self, screenMethod string
 			if sel != nil {
 				rp = ex.resolvePath(st, sel.X)
 			}
-			parentKey := recvRoot + ".Parent"
-			ex.disp[parentKey] = recvObj.Name() + ".Parent"
+			parentKey := refRoot + ".Parent"
+			ex.disp[parentKey] = ex.disp[refRoot] + ".Parent"
 			if toScreen {
-				okRecv := rp.ok && rp.root == recvRoot && len(rp.parts) == 2 && rp.parts[0] == "Vx" && rp.parts[1] == "screenNext"
-				note(name+"/->screen receiver is win.Vx.screenNext", call.Pos(), okRecv, "draws into the next-frame screen of its own Vaxis", "the root window does not draw into win.Vx.screenNext")
-				note(name+"/->screen only when Parent == nil", call.Pos(), c11ImpliesNil(st.facts, parentKey, true), "root windows only", "a window with a parent writes to the screen directly, bypassing the ancestors' clipping")
+				okRecv := rp.ok && rp.root == refRoot && len(rp.parts) == 2 && rp.parts[0] == "Vx" && rp.parts[1] == "screenNext"
+				note(v, name+"/->screen receiver is win.Vx.screenNext", call.Pos(), okRecv, "draws into the next-frame screen of its own Vaxis", "the root window does not draw into win.Vx.screenNext")
+				note(v, name+"/->screen only when Parent == nil", call.Pos(), c11ImpliesNil(st.facts, parentKey, true), "root windows only", "a window with a parent writes to the screen directly, bypassing the ancestors' clipping")
 			} else {
-				okRecv := rp.ok && rp.root == recvRoot && len(rp.parts) == 1 && rp.parts[0] == "Parent"
-				note(name+"/->parent receiver is win.Parent", call.Pos(), okRecv, "delegates to its own parent", "the window delegates to something other than its parent")
-				note(name+"/->parent only when Parent != nil", call.Pos(), c11ImpliesNil(st.facts, parentKey, false), "non-root windows only", "delegation to a nil parent is reachable")
+				okRecv := rp.ok && rp.root == refRoot && len(rp.parts) == 1 && rp.parts[0] == "Parent"
+				note(v, name+"/->parent receiver is win.Parent", call.Pos(), okRecv, "delegates to its own parent", "the window delegates to something other than its parent")
+				note(v, name+"/->parent only when Parent != nil", call.Pos(), c11ImpliesNil(st.facts, parentKey, false), "non-root windows only", "delegation to a nil parent is reachable")
 			}
 		}
 	}
+	// phase A: from the entry to the hand-offs or to the first loop head of each path
+	var arrivals []c11Arrival
+	fr.heads = c11LoopHeads(g)
+	fr.onLoopHead = func(st *c11State, b *cfg.Block) bool {
+		if len(arrivals) < 32 {
+			arrivals = append(arrivals, c11Arrival{head: b, st: st.clone()})
+		} else {
+			ex.overflow = true
+		}
+		return true
+	}
 	ex.run(c11NewState(), fr, g.Blocks[0], 0, nil)
+	// phase B: every arrival continued from the loop head in the generic state of an arbitrary iteration
+	stepVerdicts := map[*cfg.Block]*verdict{}
+	var stepOrder []*cfg.Block
+	walks := 0
+	for ai, a := range arrivals {
+		if ex.overflow {
+			break
+		}
+		// designated variables: those the loop assigns and that hold, on arrival, exactly the receiver / col / row
+		gs, assigned := ex.c11GenericState(fr, a)
+		var wVars, cVars, rVars []types.Object
+		for o := range assigned {
+			v, isVar := o.(*types.Var)
+			if !isVar {
+				continue
+			}
+			switch {
+			case ex.isIntType(v.Type()):
+				val, has := a.st.ints[o]
+				if !has {
+					val = c11Sym(ex.objSym(a.st, o))
+				}
+				if val.equal(col0) {
+					cVars = append(cVars, o)
+				} else if val.equal(row0) {
+					rVars = append(rVars, o)
+				}
+			default:
+				t := v.Type()
+				if pt, ok := t.Underlying().(*types.Pointer); ok {
+					t = pt.Elem()
+				}
+				if nt, ok := t.(*types.Named); !ok || nt.Obj() != winObj {
+					continue
+				}
+				pth, has := a.st.alias[o]
+				if !has {
+					pth = c11Path{root: ex.objSym(a.st, o), ok: true}
+				}
+				if pth.ok && pth.root == recvRoot && len(pth.parts) == 0 {
+					wVars = append(wVars, o)
+				}
+			}
+		}
+		refRoot, refCol, refRow = recvRoot, col0, row0
+		if len(wVars) > 0 {
+			walks++
+			refRoot = fmt.Sprintf("W@%d", ai)
+			ex.disp[refRoot] = wVars[0].Name()
+			for _, o := range wVars {
+				gs.alias[o] = c11Path{root: refRoot, ok: true}
+			}
+			if len(cVars) > 0 {
+				s := fmt.Sprintf("C@%d", ai)
+				ex.disp[s] = cVars[0].Name()
+				refCol = c11Sym(s)
+				for _, o := range cVars {
+					gs.ints[o] = refCol
+				}
+			}
+			if len(rVars) > 0 {
+				s := fmt.Sprintf("R@%d", ai)
+				ex.disp[s] = rVars[0].Name()
+				refRow = c11Sym(s)
+				for _, o := range rVars {
+					gs.ints[o] = refRow
+				}
+			}
+		}
+		head := a.head
+		walker := len(wVars) > 0
+		fr.onLoopHead = func(st *c11State, b *cfg.Block) bool {
+			if b != head || st.visits[b] == 0 {
+				return false // the start of this walk, or another (nested / later) loop: unrolled as before
+			}
+			if !walker {
+				return true // the generic state already stands for every iteration
+			}
+			// the induction step: the next iteration starts with (w.Parent, col + w.Column, row + w.Row)
+			v := stepVerdicts[b]
+			if v == nil {
+				v = newVerdict()
+				stepVerdicts[b] = v
+				stepOrder = append(stepOrder, b)
+			}
+			v.reached++
+			pos := fd.Pos()
+			if b.Stmt != nil {
+				pos = b.Stmt.Pos()
+			}
+			guardNotes(v, st, "parent", pos)
+			for _, ax := range []struct {
+				vars []types.Object
+				p    types.Object
+				ref  c11Lin
+				f    string
+			}{{cVars, colP, refCol, "Column"}, {rVars, rowP, refRow, "Row"}} {
+				key := fmt.Sprintf("%s/->parent arg %s = %s + %s.%s", name, ax.p.Name(), ax.p.Name(), recvObj.Name(), ax.f)
+				okArg := len(ax.vars) > 0
+				shown := "unchanged"
+				for _, o := range ax.vars {
+					got, has := st.ints[o]
+					if !has {
+						got = c11Sym(ex.objSym(st, o))
+					}
+					if !got.equal(ax.ref.add(fld(ax.f), 1)) {
+						okArg = false
+					}
+					shown = ex.linString(got)
+				}
+				note(v, key, pos, okArg, "offset added exactly once before the walk moves to the parent",
+					fmt.Sprintf("the next level of the walk continues with %s = %s, the clipping argument needs exactly %s + %s.%s: an accepted cell does not land at origin plus offset", ax.p.Name(), shown, ax.p.Name(), recvObj.Name(), ax.f))
+			}
+			okRecv := true
+			for _, o := range wVars {
+				pth, has := st.alias[o]
+				if !has || !pth.ok || pth.root != refRoot || len(pth.parts) != 1 || pth.parts[0] != "Parent" {
+					okRecv = false
+				}
+			}
+			parentKey := refRoot + ".Parent"
+			ex.disp[parentKey] = ex.disp[refRoot] + ".Parent"
+			note(v, name+"/->parent receiver is win.Parent", pos, okRecv, "the walk moves to the window's own parent", "the walk continues with something other than the window's parent")
+			note(v, name+"/->parent only when Parent != nil", pos, c11ImpliesNil(st.facts, parentKey, false), "non-root windows only", "the walk can move to a nil parent")
+			return true
+		}
+		ex.run(gs, fr, a.head, 0, nil)
+	}
+	refRoot, refCol, refRow = recvRoot, col0, row0
+	if len(calls)+walks < 2 {
+		c.undecided("C11.c", name+"/delegation", fd.Pos(), "expected a delegating call to the screen and one to the parent window (or a walk up the parent chain), found %d", len(calls)+walks)
+	}
 	if ex.overflow {
 		c.undecided("C11.c", name+"/paths", fd.Pos(), "too many paths for the symbolic evaluation of %s", name)
 		return
+	}
+	emit := func(v *verdict) {
+		for _, key := range v.order {
+			if why, bad := v.fail[key]; bad {
+				c.bad("C11.c", key, v.pos[key], "%s", why)
+			} else {
+				c.ok("C11.c", key, v.pos[key], "%s", v.okWhy[key])
+			}
+		}
 	}
 	for _, h := range calls {
 		call := h.Node.(*ast.CallExpr)
@@ -679,13 +905,10 @@ func c11Window(c *Ctx, fi *FuncInfo, info *types.Info, self, screenMethod string
 			c.undecided("C11.c", name+"/delegation reachable", call.Pos(), "no feasible path reaches the delegating call %s", types.ExprString(call.Fun))
 			continue
 		}
-		for _, key := range v.order {
-			if why, bad := v.fail[key]; bad {
-				c.bad("C11.c", key, v.pos[key], "%s", why)
-			} else {
-				c.ok("C11.c", key, v.pos[key], "%s", v.okWhy[key])
-			}
-		}
+		emit(v)
+	}
+	for _, b := range stepOrder {
+		emit(stepVerdicts[b])
 	}
 	// The symbolic evaluation follows plain assignments. A write through a pointer to, or a closure over, the
 	// coordinates or the receiver makes them unknown at the next opaque call / indirect write, which fails the
@@ -1042,108 +1265,8 @@ func c11TextHelpers(c *Ctx) {
 	} else {
 		c.undecided("C11.f", "vaxis.Characters", 0, "Characters not found")
 	}
-	// g, h
-	for _, name := range []string{"Print", "PrintTruncate", "Println", "Wrap"} {
-		fi := c.P.Func("vaxis.Window." + name)
-		if fi == nil {
-			c.undecided("C11.g", "vaxis.Window."+name, 0, "not found")
-			continue
-		}
-		g := c.P.Graph(fi)
-		var colObj types.Object
-		// the column variable is the first argument of the SetCell calls
-		sets := g.Calls(func(fn *types.Func, _ *ast.CallExpr) bool { return fn != nil && repoName(fn) == "vaxis.Window.SetCell" })
-		if len(sets) == 0 {
-			c.undecided("C11.g", fi.Name+"/SetCell", fi.Decl.Pos(), "no SetCell call")
-			continue
-		}
-		for _, h := range sets {
-			call := h.Node.(*ast.CallExpr)
-			id, ok := unparen(call.Args[0]).(*ast.Ident)
-			if !ok {
-				c.undecided("C11.g", fi.Name+"/SetCell column", call.Pos(), "column argument is not a variable")
-				continue
-			}
-			colObj = info.ObjectOf(id)
-			isAdvance := func(n ast.Node) bool {
-				as, ok := n.(*ast.AssignStmt)
-				if !ok || len(as.Lhs) != 1 || as.Tok.String() != "+=" {
-					return false
-				}
-				lid, ok := as.Lhs[0].(*ast.Ident)
-				return ok && info.ObjectOf(lid) == colObj && c11IsWidthExpr(info, fi, as.Rhs[0])
-			}
-			// from the SetCell, the next SetCell (any) or loop head must not be reachable without the advance
-			reachedNext := false
-			g.walk(Loc{h.Loc.B, h.Loc.Idx + 1}, func(l Loc, n ast.Node) bool {
-				if containsNode(n, isAdvance) {
-					return false
-				}
-				if containsNode(n, func(m ast.Node) bool {
-					c2, ok := m.(*ast.CallExpr)
-					if !ok {
-						return false
-					}
-					fn := calleeOf(info, c2)
-					return fn != nil && repoName(fn) == "vaxis.Window.SetCell"
-				}) {
-					reachedNext = true
-					return false
-				}
-				return true
-			}, nil)
-			c.check(!reachedNext, "C11.g", fi.Name+"/column advances by the character width after each cell", call.Pos(),
-				"every path from a placed cell to the next placement passes `col += width`", "a cell can be placed after another without advancing the column by the character's display width")
-		}
-		if name == "Print" || name == "Wrap" {
-			// h: a branch on col >= cols whose true edge resets col and bumps row
-			found := false
-			colsT := Term{}
-			_ = colsT
-			for _, b := range g.Blocks {
-				cd := g.BranchCond(b)
-				if cd == nil || cd.Tag != nil {
-					continue
-				}
-				be, ok := unparen(cd.Expr).(*ast.BinaryExpr)
-				if !ok {
-					continue
-				}
-				atoms := cmpAtoms(info, be.X, be.Op, be.Y, true)
-				for _, a := range atoms {
-					// want: cols - col <= 0
-					if a.Kind == "lin" && a.K == 0 && a.B.ID == termOf(info, &ast.Ident{}).ID {
-						continue
-					}
-					if a.Kind == "lin" && a.K == 0 && strings.HasSuffix(a.B.Disp, "col") && strings.HasSuffix(a.A.Disp, "cols") {
-						// true successor must reset col and increment row
-						reset, bump := false, false
-						for _, n := range b.Succs[0].Nodes {
-							if as, ok := n.(*ast.AssignStmt); ok && len(as.Lhs) == 1 {
-								l := types.ExprString(as.Lhs[0])
-								if l == "col" {
-									if v, ok := constInt(info, as.Rhs[0]); ok && v == 0 && as.Tok.String() == "=" {
-										reset = true
-									}
-								}
-								if l == "row" && as.Tok.String() == "+=" {
-									bump = true
-								}
-							}
-							if inc, ok := n.(*ast.IncDecStmt); ok && inc.Tok == token.INC && types.ExprString(inc.X) == "row" {
-								bump = true
-							}
-						}
-						if reset && bump {
-							found = true
-						}
-					}
-				}
-			}
-			c.check(found, "C11.h", fi.Name+"/new row exactly when the row is full", fi.Decl.Pos(),
-				"`col >= cols` starts a new row at column 0", "no branch `col >= cols` ⇒ row++, col=0: a cluster is placed in a full row (and clipped away) or rows break early")
-		}
-	}
+	// g, h (and k): symbolic evaluation of one generic iteration of the text loops (c11text.go)
+	c11TextCursorRules(c)
 }
 
 func exprOrNil(e ast.Expr) string {
@@ -1151,28 +1274,4 @@ func exprOrNil(e ast.Expr) string {
 		return "<nil>"
 	}
 	return types.ExprString(e)
-}
-
-// c11IsWidthExpr: e is char.Width, or a variable assigned from <x>.Width in fi
-func c11IsWidthExpr(info *types.Info, fi *FuncInfo, e ast.Expr) bool {
-	e = unparen(e)
-	if sel, ok := e.(*ast.SelectorExpr); ok && sel.Sel.Name == "Width" {
-		return typeName(info.TypeOf(sel.X)) == modPath+".Character"
-	}
-	if id, ok := e.(*ast.Ident); ok {
-		obj := info.ObjectOf(id)
-		ok2 := false
-		ast.Inspect(fi.Decl.Body, func(n ast.Node) bool {
-			if as, isAs := n.(*ast.AssignStmt); isAs && len(as.Lhs) == 1 && len(as.Rhs) == 1 {
-				if lid, isId := as.Lhs[0].(*ast.Ident); isId && info.ObjectOf(lid) == obj {
-					if sel, isSel := unparen(as.Rhs[0]).(*ast.SelectorExpr); isSel && sel.Sel.Name == "Width" && typeName(info.TypeOf(sel.X)) == modPath+".Character" {
-						ok2 = true
-					}
-				}
-			}
-			return true
-		})
-		return ok2
-	}
-	return false
 }
